@@ -430,10 +430,69 @@ def stage_read_fault(ctx, e):
                                                                         "persistent": persistent})
 
 
+def stage_moved_node(ctx, e):
+    """the verdict is about one file: a check is queued, then the operator points the node at another directory (`node modify
+    --root`) before a worker runs it.  Whichever of the two directories the check looks at, existence, length and digest must
+    come from the same file there: the verdict has to be the exact one for the old place or the exact one for the new place."""
+    import alpenhorn.daemon.update as upd
+    from alpenhorn.db import ArchiveAcq, ArchiveFile, ArchiveFileCopy, StorageNode
+    from alpenhorn.scheduler import FairMultiFIFOQueue
+    node = StorageNode.get(name="n1")
+    old_root = node.root
+    new_root = old_root.rstrip("/") + "-moved"
+    acq = ArchiveAcq.get(name="acq")
+    good = bytes(range(200)) * 3
+    flipped = bytes([good[0] ^ 1]) + good[1:]
+    # (name, bytes at the old place, bytes at the new place)
+    plans = [("moved/a.dat", good, flipped), ("moved/b.dat", None, good), ("moved/c.dat", good, None), ("moved/d.dat", flipped, good),
+             ("moved/e.dat", good[:-1], good), ("moved/f.dat", good, good)]
+
+    def exact(data):
+        return "N" if data is None else ("Y" if data == good else "X")
+    try:
+        q = FairMultiFIFOQueue()
+        un = upd.UpdateableNode(q, StorageNode.get(id=node.id))
+        copies = []
+        for name, at_old, at_new in plans:
+            frow = ArchiveFile.create(acq=acq, name=name, size_b=len(good), md5sum=hexdigest(good))
+            for root, data in ((old_root, at_old), (new_root, at_new)):
+                p = os.path.join(root, "acq", name)
+                os.makedirs(os.path.dirname(p), exist_ok=True)
+                if data is not None:
+                    with open(p, "wb") as fh:
+                        fh.write(data)
+            c = ArchiveFileCopy.create(file=frow, node=node, has_file="M", wants_file="Y")
+            copies.append((c.id, name, at_old, at_new))
+            un.io.check(ArchiveFileCopy.get(id=c.id))
+        with open(os.path.join(new_root, "ALPENHORN_NODE"), "w") as fh:
+            fh.write("n1\n")
+        StorageNode.update(root=new_root).where(StorageNode.id == node.id).execute()
+        item = q.get(timeout=0.001)
+        while item is not None:
+            try:
+                item[0]()
+            finally:
+                q.task_done(item[1])
+            item = q.get(timeout=0.001)
+        for cid, name, at_old, at_new in copies:
+            real = ArchiveFileCopy.get(id=cid).has_file
+            allowed = {exact(at_old), exact(at_new)}
+            ctx.case(("moved-node", name), nontrivial=True)
+            ctx.count(f"verdict:moved-node:{real}:{'old' if real == exact(at_old) else 'new' if real == exact(at_new) else 'neither'}")
+            if real not in allowed | {"M"}:
+                ctx.violation("verdict-mixed-files", f"check of {name} queued, node then moved to another directory: the verdict {real} is "
+                              f"exact neither for the file at the old place ({exact(at_old)}) nor for the one at the new place "
+                              f"({exact(at_new)}): existence / length / digest were taken from different files",
+                              {"kind": "moved-node", "file": name, "verdict": real, "old": exact(at_old), "new": exact(at_new)})
+    finally:
+        StorageNode.update(root=old_root).where(StorageNode.id == node.id).execute()
+
+
 def run(ctx):
     ok = common.proof_stage(ctx, MODULE)
     with envmod.CliEnv() as e:
         stage_verdict(ctx, e)
+        stage_moved_node(ctx, e)
         stage_stat_fault(ctx, e)
         stage_read_fault(ctx, e)
         stage_md5(ctx, e)
